@@ -23,19 +23,19 @@ CLAIMED = {
         "design_ref": "DESIGN.md section 4, C05", "note": _N + _PROBE + "; real context.WithCancel and x/sync/semaphore interpreted from source", "technique": _T + "; deadlock/leak detection by the deterministic task scheduler",
     },
     "C11": {
-        "text": "bounded: wsConnection.init over 15 first-frame kinds x 6 payloads x 4 init functions x 2 subprotocols; subscribe and its goroutine over executor verdicts x 0..2 payloads x panic step x subscription error; per-id frame grammar, deregistration, close callback once, no overlapping Send; the reader loop on every client script of <=2 (3) frames over a 9-frame alphabet with long-lived operations; run() with keep-alive / pong-only / ping-pong timers ticking at any scheduling point and server-context cancellation; init timeout",
+        "text": "bounded: wsConnection.init over 15 first-frame kinds x 6 payloads x 4 init functions x 2 subprotocols; subscribe and its goroutine over executor verdicts x 0..2 payloads x panic step x subscription error; per-id frame grammar, deregistration, close callback once, no overlapping Send; the reader loop on every client script of <=2 (3) frames over a 9-frame alphabet with long-lived operations; run() with keep-alive / pong-only / ping-pong timers ticking at any scheduling point and server-context cancellation; init timeout; the connection may already have sent its Close frame (writes fail with ErrCloseSent)",
         "design_ref": "DESIGN.md section 4, C11", "note": _N + "; gorilla *websocket.Conn methods are name-intercepted stubs under the engine, native replays use a real loopback connection; unbounded scripts, duplicate ids and read-deadline timing are outside the bound", "technique": _T,
     },
     "C12": {
-        "text": "bounded: multipartResponseAggregator over 1 + 0..3 payloads with a symbolic flush tick at every point, bytes parsed by an independent multipart parser; SSE.Do with 0..2 payloads and a keep-alive ticker firing at any scheduling point with every Write and Flush of the ResponseWriter fake a preemption point and conflicting accesses, lock hand-off at Unlock: event grammar, exactly-once, no overlapping use, race check (natively a slow client)",
+        "text": "bounded: multipartResponseAggregator over 1 + 0..3 payloads with a symbolic flush tick at every point, bytes parsed by an independent multipart parser; SSE.Do with 0..2 payloads and a keep-alive ticker firing at any scheduling point with every Write and Flush of the ResponseWriter fake a preemption point and conflicting accesses, lock hand-off at Unlock: event grammar, exactly-once, no overlapping use, race check (natively a slow client); MultipartMixed.Do as a whole with its real aggregator goroutine and ticker over 1 + 0..2 payloads, payload production and every write being scheduling points (a violation instance is replayed natively with jittered timing until it shows)",
         "design_ref": "DESIGN.md section 4, C12", "note": _N + "; ticker modelled as a daemon task; TCP chunking and client disconnects are outside the bound", "technique": _T + "; schedule exploration with explicit preemption points",
     },
     "C13": {
-        "text": "bounded: 10 @defer families x symbolic if: variables x outcome deviations x every completion order of groups; arrival-order merge equals a defer-aware reference, delivery rules (path delivered before, hasNext, once per (path,label), termination); two genuine defects are recorded as known findings",
+        "text": "bounded: 11 @defer families x symbolic if: variables x outcome deviations x every completion order of groups; arrival-order merge equals a defer-aware reference, delivery rules (path delivered before, hasNext, once per (path,label), termination); two genuine defects are recorded as known findings",
         "design_ref": "DESIGN.md section 4, C13", "note": _N + _PROBE, "technique": _T + "; schedule exploration, gated native replay of completion orders",
     },
     "C16": {
-        "text": "bounded: introspection wrappers on harness-built definitions with symbolic @deprecated/description/default on every field, argument, input field, enum value, directive argument; generated __schema/__type resolvers behind aliases/fragments/@include with DisableIntrospection symbolic; every type of a schema with an interface hierarchy, unions, wrappers, oneOf, specifiedBy and repeatable directives compared with the ast.Schema (kinds, interfaces, possible types, ofType chains, type list, root types, directives)",
+        "text": "bounded: introspection wrappers on harness-built definitions with symbolic @deprecated/description/default on every field, argument, input field, enum value, directive argument; generated __schema/__type resolvers behind aliases/fragments/@include with DisableIntrospection symbolic; every type of a schema with an interface hierarchy, unions, wrappers, oneOf, specifiedBy and repeatable directives compared with the ast.Schema (kinds, interfaces, possible types, ofType chains, default values, type list, root types, directives)",
         "design_ref": "DESIGN.md section 4, C16", "note": _N + "; arbitrary schemas and byte-level SDL reconstruction are outside the bound", "technique": _T,
     },
     "C20": {
@@ -63,7 +63,7 @@ CLAIMED = {
         "design_ref": "DESIGN.md section 4, C08", "note": _N, "technique": _T,
     },
     "C09": {
-        "text": "bounded: Server.ServeHTTP -> GET/POST/GRAPHQL/UrlEncodedForm transports -> real Executor and gqlparser (interpreted) with an ExecutableSchema fake, over 10 documents x operationName x 9 Accept headers x 4 ResponseHeaders settings, malformed-request corpus, unsupported requests; status, Content-Type, JSON body, 'GET only queries', 'exactly the named operation' asserted on a ResponseWriter fake; also with the document supplied by an operation-parameter mutator (APQ hash-only requests), for two-request sequences, and for content negotiation across two requests with configured response headers",
+        "text": "bounded: Server.ServeHTTP -> GET/POST/GRAPHQL/UrlEncodedForm transports -> real Executor and gqlparser (interpreted) with an ExecutableSchema fake, over 10 documents x operationName x 9 Accept headers x 4 ResponseHeaders settings, malformed-request corpus, unsupported requests; status, Content-Type, JSON body, 'GET only queries', 'exactly the named operation' asserted on a ResponseWriter fake; also with the document supplied by an operation-parameter mutator (APQ hash-only requests), for two-request sequences, for content negotiation across two requests with configured response headers, and for transport selection (both transport orders x method x request Content-Type x where the document is)",
         "design_ref": "DESIGN.md section 4, C09", "note": _N, "technique": _T,
     },
     "C10": {
@@ -71,7 +71,7 @@ CLAIMED = {
         "design_ref": "DESIGN.md section 4, C10", "note": _N, "technique": _T,
     },
     "C15": {
-        "text": "one-step induction: from every invariant-satisfying cache state (key = SHA-256(text)), one request over 3 texts x 11 extension shapes keeps the invariant, resolves hash-only requests to matching text or NotFound, rejects mismatches without registering; explicit histories of 2 (4) requests, and of 2 (3) HTTP requests through one Server incl. undecodable bodies; every explored path is also replayed natively",
+        "text": "one-step induction: from every invariant-satisfying cache state (key = SHA-256(text)), one request over 3 texts x 11 extension shapes keeps the invariant, resolves hash-only requests to matching text or NotFound, rejects mismatches without registering; explicit histories of 2 (4) requests, and of 2 (3) HTTP requests through one Server incl. undecodable bodies, over 8 texts with white-space and letter-case twins x document cache none / map / LRU; two text+hash requests at once through one extension (race check); every explored path is also replayed natively",
         "design_ref": "DESIGN.md section 4, C15", "note": _N + "; SHA-256 computed natively on concrete texts, mapstructure.Decode is a contract model validated by the native replays", "technique": _T,
     },
     "C14": {
